@@ -24,10 +24,10 @@ type fileInput struct {
 // entriesByKind: the decode entry points that correspond to a container kind.
 var entriesByKind = map[string][]string{
 	"tiff":  {"Decode", "DecodeTiff", "Parse", "ScanTiffHeader", "ScanTiffHeader/raw", "imagetype.Scan", "imagetype.ReadAt"},
-	"jpeg":  {"Decode", "DecodeJPEG", "ScanJPEG", "ScanJPEG/raw", "imagetype.Scan"},
-	"png":   {"DecodePng", "ScanPngHeader", "Decode"},
+	"jpeg":  {"Decode", "DecodeJPEG", "ScanJPEG", "ScanJPEG/raw", "imagetype.Scan", "Parse"}, // exif2.Parse searches any stream for the TIFF header
+	"png":   {"DecodePng", "ScanPngHeader", "Decode", "Parse"},
 	"cr3":   {"Decode", "DecodeCR3", "PreviewCR3", "BmffReader"},
-	"heif":  {"Decode", "DecodeHeif", "BmffReader"},
+	"heif":  {"Decode", "DecodeHeif", "BmffReader", "Parse"},
 	"avif":  {"Decode", "BmffReader"},
 	"xmp":   {"ParseXmp", "Decode", "imagetype.Scan"},
 	"other": {"Decode", "Parse", "imagetype.Scan", "imagetype.ReadAt"},
